@@ -1,5 +1,6 @@
 import Driver.ExecOps
 import Pymodbus.Model.Server
+import Pymodbus.Spec.RegisterFile
 open Lean Pymodbus Pymodbus.Server
 
 namespace Driver
@@ -33,12 +34,20 @@ def opServer (j : Json) : P Json := do
   let mut calls : List Json := []
   for (i, c) in sched do
     let (conn', ctx', outs, esc) := connStep cfg (conns i) ctx c
+    -- `opaque`: a request outside the modelled execute methods (diagnostics, identification, file records, ...) was
+    -- delivered in this call; the model answers those with SlaveFailure, the harness does not compare those bytes
+    let units := acceptedUnits cfg ctx
+    let evs := if cfg.framer = .tls then (Framer.tlsFeed decServer units ctx.single (conns i).buf c).1
+               else (Framer.feed (stepFor cfg.framer) decServer units ctx.single (conns i).buf c).1
+    let isOpaque := (conns i).running && evs.any (fun e => match e with
+      | .deliver r _ _ _ => !(decide (RegisterFile.InScope r))
+      | _ => false)
     let old := conns
     conns := fun k => if k = i then conn' else old k
     ctx := ctx'
     calls := Json.mkObj [("out", jArr (outs.map jNats)),
       ("escaped", match esc with | some e => Json.str e.name | none => Json.null),
-      ("running", Json.bool conn'.running)] :: calls
+      ("running", Json.bool conn'.running), ("opaque", Json.bool isOpaque)] :: calls
   pure (Json.mkObj [("calls", jArr calls.reverse),
     ("dumps", jArr (ctx.slaves.map (fun kv => jArr [jInt kv.1, jSlaveDump kv.2])))])
 
